@@ -566,6 +566,48 @@ func (e *Env) evalCall(n *ast.CallExpr) Term {
 			rs = e.u().sortOf(e.typeOf(typeArgs[0]))
 		}
 		return e.st.ex.applyPureClosure(e, n, bv, args, e.eval(n.Args[0]), rs)
+	case "postof":
+		// postof("pkg.(T).M", receiver, args..., results...): the conjunction of the postconditions of the named
+		// contract for these arguments and results, read in the current state (used by two-run lemmas over
+		// functions that assign nothing)
+		tv, ok := e.info.Types[n.Args[0]]
+		if !ok || tv.Value == nil || tv.Value.Kind() != constant.String {
+			e.fail(n, "postof: the contract name must be a string constant")
+		}
+		want := constant.StringVal(tv.Value)
+		var pc *Contract
+		for _, k := range sortedKeys(e.st.ex.prog.Contracts) {
+			if k == want || strings.HasSuffix(k, "/"+want) {
+				pc = e.st.ex.prog.Contracts[k]
+			}
+		}
+		if pc == nil {
+			e.fail(n, "postof: no contract named %s", want)
+		}
+		var bs []Binder
+		if pc.Recv != nil {
+			bs = append(bs, *pc.Recv)
+		}
+		bs = append(bs, pc.Params...)
+		bs = append(bs, pc.Results...)
+		if len(bs) != len(n.Args)-1 {
+			e.fail(n, "postof(%s): %d values given, the contract has %d parameters and results", want, len(n.Args)-1, len(bs))
+		}
+		pe := &Env{st: e.st, pkgPath: pc.PkgPath, info: e.st.ex.prog.infoFor(pc.PkgPath), vars: map[string]BVal{}, cur: e.cur, old: e.cur, ghost: e.ghost, ghost0: e.ghost, allocLo: e.allocLo}
+		for i, b := range bs {
+			pe.vars[b.Name] = BVal{Val: e.eval(n.Args[i+1])}
+		}
+		for _, l := range pc.Lets {
+			pe.vars[l.Label] = pe.evalLetSafe(l)
+		}
+		var cs []Term
+		for _, cl := range pc.Ensures {
+			if mentionsCallLog(cl.Expr) {
+				continue
+			}
+			cs = append(cs, pe.eval(cl.Expr))
+		}
+		return and(cs...)
 	case "cloinv":
 		// cloinv(f): the invariant a closure keeps on its captured variables (`ensures [inv] E` of its contract);
 		// for a function value that is not statically known an uninterpreted predicate of the function value
